@@ -283,6 +283,8 @@ def execute_c09b(plan):
                 r2.lines.append(l2)
             snap.regions.append(r2)
         captured[self.id] = copy.deepcopy(snap)
+        for ln in captured[self.id].lines_iterator():
+            ln.transcription_confidence = None      # the original as a one-process flow would decode it
         return orig_save(self, file_name, *a, **k)
 
     def viol(kind, sig, msg):
